@@ -2566,7 +2566,8 @@ class StridedInterval:
         if s.is_integer and b.is_integer:
             upper = max(s.upper_bound, b.upper_bound) if smart_join else b.upper_bound
             lower = min(s.lower_bound, b.lower_bound) if smart_join else s.lower_bound
-            stride = abs(upper - lower)
+            # the distance from lower up to upper (around the south pole if they are given in that order)
+            stride = s._modular_sub(upper, lower, w)
             return StridedInterval(
                 bits=w, stride=stride, lower_bound=lower, upper_bound=upper, uninitialized=uninit_flag
             )
